@@ -12,6 +12,8 @@ package actor
 //     K:x       x.Shutdown()                   P:x     Tell(x, PoisonPill), wait until x is offline
 //     T:p:x     p.Stop(x)                      Q:x     system.Kill(name of x)
 //     R:x       x.Restart()                    Z       system.Stop()
+//     F:x       x fails (its Receive panics on a verifFail message) under a supervisor WITHOUT any directive:
+//               notifyParent finds no directive and SUSPENDS x (alive, IsSuspended, not IsRunning); waits for that
 //
 // Output: one segment per op joined by '#'.  Stop-like ops print
 //   <op>:order=<PostStop order>;run=<subtree actors still running when the call returned>;
@@ -32,6 +34,7 @@ import (
 	"time"
 
 	"github.com/tochemey/goakt/v4/log"
+	"github.com/tochemey/goakt/v4/supervisor"
 )
 
 type verifScenario struct {
@@ -58,8 +61,19 @@ type verifSysActor struct {
 }
 
 func (a *verifSysActor) PreStart(*Context) error { return nil }
+type verifFail struct{}
+
+// verifBareSupervisor has no directive at all: a failure leaves the actor suspended.
+func verifBareSupervisor() *supervisor.Supervisor {
+	sup := supervisor.NewSupervisor()
+	sup.Reset()
+	return sup
+}
+
 func (a *verifSysActor) Receive(ctx *ReceiveContext) {
 	switch m := ctx.Message().(type) {
+	case *verifFail:
+		panic("verif scripted failure")
 	case *Terminated:
 		a.sc.terminated(a.name, m.ActorPath().Name())
 	default:
@@ -187,7 +201,7 @@ func (r *verifSysRun) op(tok string) string {
 	r.settle()
 	switch f[0] {
 	case "S":
-		pid, err := r.sys.Spawn(ctx, f[1], &verifSysActor{sc: r.sc, name: f[1]}, WithLongLived())
+		pid, err := r.sys.Spawn(ctx, f[1], &verifSysActor{sc: r.sc, name: f[1]}, WithLongLived(), WithSupervisor(verifBareSupervisor()))
 		if err != nil {
 			return "S:err=" + err.Error()
 		}
@@ -198,7 +212,7 @@ func (r *verifSysRun) op(tok string) string {
 		if p == nil {
 			return "C:nopid"
 		}
-		pid, err := p.SpawnChild(ctx, f[2], &verifSysActor{sc: r.sc, name: f[2]}, WithLongLived())
+		pid, err := p.SpawnChild(ctx, f[2], &verifSysActor{sc: r.sc, name: f[2]}, WithLongLived(), WithSupervisor(verifBareSupervisor()))
 		if err != nil {
 			return "C:err=" + verifErr(err)
 		}
@@ -206,6 +220,22 @@ func (r *verifSysRun) op(tok string) string {
 		r.parent[f[2]] = f[1]
 		r.children[f[1]] = append(r.children[f[1]], f[2])
 		return "C:ok"
+	case "F":
+		p := r.pids[f[1]]
+		if p == nil {
+			return "F:nopid"
+		}
+		if err := Tell(ctx, p, new(verifFail)); err != nil {
+			return "F:err=" + verifErr(err)
+		}
+		deadline := time.Now().Add(verifWait)
+		for !p.IsSuspended() {
+			if time.Now().After(deadline) {
+				return "F:err=not_suspended"
+			}
+			time.Sleep(50 * time.Microsecond)
+		}
+		return "F:ok"
 	case "W":
 		a, b := r.pids[f[1]], r.pids[f[2]]
 		if a == nil || b == nil {
